@@ -33,6 +33,7 @@
   `Acyclic` (a topological numbering) survives only to state that the cyclic examples below ARE cyclic.
 -/
 import Hs.Lemmas.NsSpec
+import Hs.Lemmas.NsAssoc
 namespace Hs.C13
 open Hs Hs.Ns Relation
 
@@ -500,6 +501,139 @@ example : reflect (fuelFor (make cycRows).defs) (make cycRows) [(['b'], true), (
 example : reflFits (fuelFor (make cycRows).defs) (make cycRows) [(['b'], true), (['c'], true)] ['t'] = .ok true ∧
     reflFits (fuelFor (make cycRows).defs) (make cycRows) [(['b'], true), (['c'], false)] ['t'] = .ok false ∧
     reflFits (fuelFor (make cycRows).defs) (make cycRows) [(['s'], false)] ['m'] = .ok true := by decide +kernel
+
+/-! ## Part 2 — the queries that read more of a def than its `is` list
+
+Model: Hs.Model.NsAssoc (`associations` / `find_reciprocal_associations` with `is`, `tag_on`, `tags`;
+`implementation`; `fits_marker/val/choice/entity`; `compute_entity_type`; everything `has_relationship` reads
+from the namespace; the indexes `choices`, `features`, `libs`, `feature_names`, `tag_on_names`, `tag_on_defs`).
+The taxonomy it uses is the model of part 1 on the projection of the full defs (`assoc_taxonomy_is_projection`),
+so the closures below are the closures of part 1.  These queries are outside the sentence of C13 proper; they are
+the "relationship queries" of C14 and are stated here because they are graph facts. -/
+
+open Hs.NsA in
+/-- the taxonomy model inside `makeX` is built from exactly the `def` / `is` projection of the full defs -/
+theorem assoc_taxonomy_is_projection (rows : List RowX) :
+    (makeX rows).ns = make (rows.map RowX.toRow) ∧ (makeX rows).ns.defs = (makeX rows).xd.map DefX.toDef ∧
+    ∀ s, defined (makeX rows).ns.defs s = (getX (makeX rows).xd s).isSome :=
+  ⟨rfl, makeX_defs rows, defined_iff_getX rows⟩
+
+open Hs.NsA in
+/-- `associations` answers nothing for a name that is no def, or a def that does not list `association` in `is` -/
+theorem associations_only_for_associations (fuel : Nat) (x : NsX) (p a : Name) :
+    (getX x.xd a = none → associations fuel x p a = .ok []) ∧
+    (∀ ad, getX x.xd a = some ad → isAssoc ad = false → associations fuel x p a = .ok []) :=
+  ⟨associations_unknown fuel x p a, fun ad h hn => associations_not_association fuel x p a ad h hn⟩
+
+open Hs.NsA in
+/-- a plain association (`is`, `tagOn`, ...): the defined Symbol items of the parent's tag of that name -/
+theorem associations_plain_spec (fuel : Nat) (x : NsX) (p a : Name) (ad : DefX)
+    (h : getX x.xd a = some ad) (ha : isAssoc ad = true) (hc : ad.has nComputed = false) :
+    ∃ res, associations fuel x p a = .ok res ∧
+      ∀ n, n ∈ res ↔ ∃ pd l, getX x.xd p = some pd ∧ pd.getList a = some l ∧ some n ∈ l ∧ defined x.ns.defs n = true :=
+  associations_plain fuel x p a ad h ha hc
+
+open Hs.NsA in
+/-- a computed association (`tags`): the defs that name, under the reciprocal tag (`tagOn`), the parent or one of
+its transitive supertypes - for every defs grid, cyclic or not -/
+theorem associations_computed_spec (rows : List RowX) (fuel : Nat) (hf : fuelFor (makeX rows).ns.defs ≤ fuel)
+    (p a r : Name) (ad : DefX)
+    (h : getX (makeX rows).xd a = some ad) (ha : isAssoc ad = true) (hc : ad.has nComputed = true)
+    (hr : ad.getSymbol nReciprocalOf = some r) (hrd : defined (makeX rows).ns.defs r = true) :
+    ∃ res, associations fuel (makeX rows) p a = .ok res ∧
+      ∀ n, n ∈ res ↔ ∃ d l t, d ∈ (makeX rows).xd ∧ d.name = n ∧ d.tag r = some (.list l) ∧ some t ∈ l ∧
+        defined (makeX rows).ns.defs p = true ∧ ReflTransGen (Edge (makeX rows).ns.defs) p t :=
+  associations_computed rows fuel hf p a r ad h ha hc hr hrd
+
+open Hs.NsA in
+/-- `implementation`: the defined non-feature parts of the name in order, then the `mandatory` defs among their
+transitive supertypes -/
+theorem implementation_is_parts_and_mandatory_supertypes (rows : List RowX) (fuel : Nat)
+    (hf : fuelFor (makeX rows).ns.defs ≤ fuel) (s : Name) :
+    ∃ base mand, implementation fuel (makeX rows) s = .ok (base, mand) ∧
+      base = (conjunctsDefs (makeX rows).ns s).filter (fun n => !isFeature n) ∧
+      ∀ n, n ∈ mand ↔ hasMarkerX (makeX rows).xd n nMandatory = true ∧
+        ∃ b, b ∈ base ∧ TransGen (Edge (makeX rows).ns.defs) b n :=
+  implementation_spec rows fuel hf s
+
+open Hs.NsA in
+/-- `fits_marker` / `fits_val` / `fits_choice` / `fits_entity` -/
+theorem fits_root_spec (rows : List RowX) (fuel : Nat) (hf : fuelFor (makeX rows).ns.defs ≤ fuel) (w : Nat) (s : Name) :
+    ∃ v, fitsRoot fuel (makeX rows) w s = .ok v ∧
+      (v = true ↔ (defined (makeX rows).ns.defs s = true ∧ defined (makeX rows).ns.defs (rootName w) = true ∧
+        ReflTransGen (Edge (makeX rows).ns.defs) s (rootName w))) :=
+  fitsRoot_spec rows fuel hf w s
+
+open Hs.NsA in
+/-- the entity type of a reflection is one of the reflected defs and is, or inherits from, `entity` -/
+theorem entity_type_sound (rows : List Row) (fuel : Nat) (hf : fuelFor (make rows).defs ≤ fuel)
+    (reflected order : List Name) :
+    ∃ r, entityType fuel (make rows) reflected order = .ok r ∧
+      ∀ c, r = some c → c ∈ reflected ∧ defined (make rows).defs nEntity = true ∧
+        ReflTransGen (Edge (make rows).defs) c nEntity := by
+  obtain ⟨cands, h1, h2⟩ := entityCandidates_sound rows fuel hf reflected
+  unfold entityType
+  rw [h1]
+  refine ⟨_, rfl, fun c hc => ?_⟩
+  have := List.find?_some hc
+  exact h2 c (List.contains_iff_mem.1 this)
+
+open Hs.NsA in
+/-- `has_relationship` always answers (no endless walk over the resolver's records, whatever cycles their refs
+form), answers false for a name that is no def -/
+theorem has_relationship_total (rows : List RowX) (fuel : Nat) (hf : fuelFor (makeX rows).ns.defs ≤ fuel)
+    (recs : List RecX) (lf : Nat) (hlf : recs.length < lf) (rel : Name) (term : Option Name)
+    (target : Option FLoops.RefId) (s : RecX) :
+    (∃ b, NsA.hasRelationship fuel lf (makeX rows) recs rel term target s = .ok b) ∧
+    (getX (makeX rows).xd rel = none → NsA.hasRelationship fuel lf (makeX rows) recs rel term target s = .ok false) :=
+  ⟨hasRelationship_total rows fuel hf recs lf hlf rel term target s,
+   hasRelationship_unknown fuel lf (makeX rows) recs rel term target s⟩
+
+/-! Non-vacuity (part 2): a miniature of the standard library.  `tagOn` is a plain association, `tags` is computed
+from it; `ahu is [equip]`; `foo tagOn [equip]`, `bar tagOn [ahu, nowhere]`; `equip` is mandatory; `ahu-foo` is a
+conjunct; `containedBy` is a transitive relationship. -/
+section
+open Hs.NsA
+def nm (s : String) : Name := s.toList
+
+def libRows : List RowX :=
+  [ { name := some ['a','s','s','o','c','i','a','t','i','o','n'], tags := [] },
+    { name := some ['t','a','g','O','n'], tags := [(nIs, .list [some nAssociation])] },
+    { name := some ['t','a','g','s'], tags := [(nIs, .list [some nAssociation]), (nComputed, .marker), (nReciprocalOf, .sym nTagOn)] },
+    { name := some ['i','s'], tags := [(nIs, .list [some nAssociation])] },
+    { name := some ['e','n','t','i','t','y'], tags := [] },
+    { name := some ['e','q','u','i','p'], tags := [(nIs, .list [some nEntity]), (nMandatory, .marker)] },
+    { name := some ['a','h','u'], tags := [(nIs, .list [some ['e','q','u','i','p']])] },
+    { name := some ['f','o','o'], tags := [(nTagOn, .list [some ['e','q','u','i','p']])] },
+    { name := some ['b','a','r'], tags := [(nTagOn, .list [some ['a','h','u'], some ['n','o','w','h','e','r','e'], none])] },
+    { name := some ['a','h','u','-','f','o','o'], tags := [(nIs, .list [some ['a','h','u']])] },
+    { name := some ['n','o','t','A','s','s','o','c'], tags := [(nIs, .list [some ['e','q','u','i','p']])] } ]
+
+def libX : NsX := makeX libRows
+def libFuel : Nat := fuelFor libX.ns.defs
+
+-- `tags(ahu)`: what is tagOn `ahu` or on its supertype `equip`; `tags(equip)`: only what is tagOn `equip`
+example : assocTags libFuel libX ['a','h','u'] = .ok [['f','o','o'], ['b','a','r']] := by decide +kernel
+example : assocTags libFuel libX ['e','q','u','i','p'] = .ok [['f','o','o']] := by decide +kernel
+example : assocTags libFuel libX ['n','o','w','h','e','r','e'] = .ok [] := by decide +kernel
+-- `tag_on(bar)`: the defined Symbol items of its `tagOn` list; `is(ahu)`
+example : assocTagOn libFuel libX ['b','a','r'] = .ok [['a','h','u']] := by decide +kernel
+example : assocIs libFuel libX ['a','h','u'] = .ok [['e','q','u','i','p']] := by decide +kernel
+-- a def that is no association; an unknown name
+example : associations libFuel libX ['a','h','u'] ['n','o','t','A','s','s','o','c'] = .ok [] := by decide +kernel
+example : associations libFuel libX ['a','h','u'] ['z'] = .ok [] := by decide +kernel
+-- `implementation(ahu-foo)`: the parts `ahu`, `foo`, then the mandatory supertype `equip`
+example : implementation libFuel libX ['a','h','u','-','f','o','o'] =
+    .ok ([['a','h','u'], ['f','o','o']], [['e','q','u','i','p']]) := by decide +kernel
+example : fitsRoot libFuel libX 3 ['a','h','u'] = .ok true ∧ fitsRoot libFuel libX 3 ['f','o','o'] = .ok false ∧
+    fitsRoot libFuel libX 0 ['a','h','u'] = .ok false := by decide +kernel
+-- the entity type of `{ahu, equip, foo}`: `ahu` (the most specific of the two entity defs)
+example : entityCandidates libFuel libX.ns [['a','h','u'], ['e','q','u','i','p'], ['f','o','o'], ['e','n','t','i','t','y']]
+    = .ok [['a','h','u']] := by decide +kernel
+example : tagOnNames libX = [['e','q','u','i','p'], ['a','h','u'], ['n','o','w','h','e','r','e']] ∧
+    tagOnDefs libX = [(['f','o','o'], [['e','q','u','i','p']]), (['b','a','r'], [['a','h','u']])] ∧
+    conjuncts libX = [['a','h','u','-','f','o','o']] := by decide +kernel
+end
 
 /-! The fuel bound is attained: below the undefined symbol `nowhere` hang both defs of this grid, the subtype
 traversal pops `1 + 2` vectors; one unit of fuel less and the model reports `diverge`. -/
